@@ -90,7 +90,7 @@ def detect(pid, letter, props):
     results = {}
     try:
         for p in props or [pid]:
-            rc, o = sh(f"VDRIVE_ENGINES=native,release,b64feat ./check {p} --tier quick", ROOT, timeout=3600)
+            rc, o = sh(f"VDRIVE_ENGINES={os.environ.get('MUTANT_ENGINES', 'native,release,b64feat')} ./check {p} --tier quick", ROOT, timeout=3600)
             sigs = [l.strip() for l in o.splitlines() if l.strip().startswith("violated:")]
             results[p] = {"exit": rc, "violations": sigs[:6]}
             print(f"[{pid}-{letter}] check {p}: exit={rc}")
